@@ -88,7 +88,7 @@ class Interp(ExprMixin, StmtMixin, CallMixin, BuiltinMixin, HeapMixin, SpecMixin
             return False
         return self.check(c) != z3.unsat
 
-    def choose(self, conds, label=''):
+    def choose(self, conds, label='', names=None):
         """Multi-way decision.  conds: list of (z3 Bool | bool).  Returns the
         chosen index; the chosen condition is added to the path condition."""
         if self.spec_mode:
@@ -104,7 +104,7 @@ class Interp(ExprMixin, StmtMixin, CallMixin, BuiltinMixin, HeapMixin, SpecMixin
         if ctl.at_forced():
             i = ctl.forced[len(ctl.taken)]
             ctl.taken.append(i)
-            ctl.labels.append('%s=%d' % (label, i))
+            ctl.labels.append('%s=%s' % (label, names[i] if names else i))
             self.assume(conds[i])
             return i
         feas = []
@@ -122,7 +122,7 @@ class Interp(ExprMixin, StmtMixin, CallMixin, BuiltinMixin, HeapMixin, SpecMixin
             ctl.new_prefixes.append(list(ctl.taken) + [j])
         i = feas[0]
         ctl.taken.append(i)
-        ctl.labels.append('%s=%d' % (label, i))
+        ctl.labels.append('%s=%s' % (label, names[i] if names else i))
         self.assume(conds[i])
         return i
 
